@@ -1,7 +1,6 @@
 """C09 — exchange rates: normal form, accuracy, inversion, triangulation;
 plus the money part of C10 (money * rate, rate * money, money / rate)."""
 import math
-import os
 from fractions import Fraction as F
 
 from vlib import world as W
@@ -37,7 +36,9 @@ RULE = ("seeded generator over the currencies EUR USD JPY KWD (+ a user currency
         "lies within 1e-12 relative distance below a power of ten are compared on "
         ".rate up to one unit in the sixth decimal only (label approx-step; float log10 "
         "in the implementation / in decimalfp's pure-Python magnitude), the oracle still "
-        "checks the full property on them. non-trivial = a constructed or derived rate "
+        "checks the full property on them and reports the known finding "
+        "C09-float-log10-truncating-mode (deterministic witnesses: corpus/C09 cases 1-3, 6). "
+        "non-trivial = a constructed or derived rate "
         "whose term amount needed rounding or whose multiple was changed, or a money "
         "result that needed rounding; distinct by (step kind, mode, exact value).")
 ASSUMPTIONS = [
@@ -560,19 +561,20 @@ def is_pow10_ge1(x):
     return s[0] == '1' and set(s[1:]) <= {'0'}
 
 
-STRICT_MODES = bool(os.environ.get('C09_STRICT_MODES'))
 TRUNCATING = ('MDOWN', 'MFLOOR', 'M05UP')
+KNOWN_KEY = 'C09-float-log10-truncating-mode'
+KNOWN_MARK = '[float-log10 hazard below a power of ten, truncating default mode]'
 
 
-def outside_default_config(o, dm, hz):
-    """term amount 0.099999 (magnitude -2): happens when the float log10 takes
-    an adjusted amount just below a power of ten for that power AND the default
-    rounding mode was changed to a truncating one; under the library's default
-    configuration (ROUND_HALF_EVEN) such an amount rounds to 0.100000.  The
-    property is about the default configuration; the occurrences are counted
-    (label outside-default-config) and reported in notes/design_C09.md."""
-    return (hz and dm in TRUNCATING and o['k'] == 'rate'
-            and F(o['amt']) == F(99999, 10**6) and not STRICT_MODES)
+def known_pattern(o, dm, hz):
+    """the one known way to a term amount of magnitude -2 (known_findings.json,
+    key C09-float-log10-truncating-mode): the float log10 takes an adjusted
+    amount within 1e-12 (relative) below a power of ten for that power, the
+    amount is scaled one decade too little, and a truncating default mode
+    (ROUND_DOWN / ROUND_FLOOR / ROUND_05UP) rounds 0.0999999... to 0.099999.
+    Anything else below 1/10 is an unknown violation."""
+    return (bool(hz) and dm in TRUNCATING and o['k'] == 'rate'
+            and F(o['amt']) == F(99999, 10**6))
 
 
 def check_rate(o, dm, u, t, x, what, hz=None):
@@ -589,8 +591,9 @@ def check_rate(o, dm, u, t, x, what, hz=None):
         return f"{what}: unit multiple {mult} is not a power of ten >= 1"
     if amt <= 0 or (amt * 10**6).denominator != 1:
         return f"{what}: term amount {amt} not positive with at most 6 fractional digits"
-    if amt < F(1, 10) and not outside_default_config(o, dm, hz):
-        return f"{what}: term amount {amt} has magnitude < -1 (mode {dm})"
+    if amt < F(1, 10):
+        mark = ' ' + KNOWN_MARK if known_pattern(o, dm, hz) else ''
+        return f"{what}: term amount {amt} has magnitude < -1 (mode {dm}){mark}"
     err = abs(amt - x * mult)
     if dm in HALF:
         if err > Q6 / 2:
@@ -638,16 +641,24 @@ def oracle_derived(o, dm, u, t, x, what):
     return check_rate(o, dm, u, t, x, what)
 
 
+def first_message(msgs):
+    """unknown failures first: a known finding must never hide another one"""
+    msgs = [m for m in msgs if m]
+    msgs.sort(key=lambda m: KNOWN_MARK in m)
+    return msgs[0] if msgs else None
+
+
 def oracle(case, r):
     k, dm = case['kind'], case['dm']
     if k == 'new':
         return oracle_new(case, r['new'], dm)
     if k == 'pair':
         o1, o2 = r['r1'], r['r2']
-        msg = oracle_new(case['r1'], o1, dm, 'r1') or oracle_new(case['r2'], o2, dm, 'r2')
-        if msg or 'inv1' not in r:
-            return msg or "valid rates could not be built"
-        msgs = []
+        msgs = [oracle_new(case['r1'], o1, dm, 'r1'), oracle_new(case['r2'], o2, dm, 'r2')]
+        if 'inv1' not in r:
+            return first_message(msgs) or "valid rates could not be built"
+        if any(m and KNOWN_MARK not in m for m in msgs):
+            return first_message(msgs)
         for o, inv, nm in ((o1, r['inv1'], 'r1'), (o2, r['inv2'], 'r2')):
             msgs.append(oracle_derived(inv, dm, o['t'], o['u'], 1 / F(o['rate']), nm + '.inverted()'))
         for a, b, res, nm in ((o1, o2, r['mul12'], 'r1*r2'), (o2, o1, r['mul21'], 'r2*r1')):
@@ -687,13 +698,14 @@ def oracle(case, r):
                     msgs.append(f"r1 == rescaled r1: {e}, equal quotations: {same}")
         if any(r['eq_other']):
             msgs.append(f"rate == non-rate: {r['eq_other']}")
-        msgs = [m for m in msgs if m]
-        return msgs[0] if msgs else None
+        return first_message(msgs)
     if k == 'money':
         o = r['r']
         msg = oracle_new(case['r'], o, dm, 'r')
-        if msg or 'm' not in r:
+        if 'm' not in r:
             return msg or "valid rate could not be built"
+        if msg and KNOWN_MARK not in msg:
+            return msg
         fr = fractions()
         m = r['m']
         if r['m_after'] != m:
@@ -706,15 +718,32 @@ def oracle(case, r):
                     or res.get('float') or F(res['amt']) != exp:
                 return f"{what}: got {res}, expected {exp} {tgt}"
             return None
-        msgs = []
+        msgs = [msg]
         for res, nm in ((r['mul'], 'money*rate'), (r['rmul'], 'rate*money')):
             msgs.append(want(res, o['t'], amt * rate, nm) if cur == o['u']
                         else expect_error(res, 'EValueError', nm + ' currency mismatch'))
         msgs.append(want(r['div'], o['u'], amt / rate, 'money/rate') if cur == o['t']
                     else expect_error(r['div'], 'EValueError', 'money/rate currency mismatch'))
-        msgs = [m for m in msgs if m]
-        return msgs[0] if msgs else None
+        return first_message(msgs)
     return None
+
+
+def classify(case, res, msg):
+    """key of a known finding (known_findings.json).  Exactly the pattern of
+    [known_pattern], recognised by the oracle from the exact inputs and marked
+    in its message; for a plain constructor case it is re-derived here from
+    the case and the observation.  Any other magnitude < -1 gets no key and
+    stays a VIOLATION."""
+    if msg is None or KNOWN_MARK not in msg or 'has magnitude < -1' not in msg:
+        return None
+    if case.get('dm') not in TRUNCATING:
+        return None
+    if case.get('kind') == 'new':
+        o = (res or {}).get('new') or {}
+        if not (new_hazard(case) and o.get('k') == 'rate'
+                and F(o['amt']) == F(99999, 10**6)):
+            return None
+    return KNOWN_KEY
 
 
 # ------------------------------------------------------------ evidence
@@ -737,7 +766,7 @@ def labels(case, r):
             out.append('approx-step')
     for o in _rates_in(r):
         if o['k'] == 'rate' and F(o['amt']) < F(1, 10):
-            out.append('outside-default-config:magnitude<-1')
+            out.append('known-finding:magnitude<-1')
     if k == 'new':
         out.append('new-result=' + _res_label(r['new']))
         out.append('mult-kind=' + case['m'][0])
